@@ -8,13 +8,15 @@ EXTENDS Integers, Sequences, FiniteSets, TLC
 
 \* "dl1" / "dp13": a default literal 55 / default pattern 50..=60 written FIRST and a literal 1 / pattern 1..=3 dedicated to the counterpart type:
 \* the dedicated one is the one that counts (C05's rule for literal / pattern)
-Items == {"l0", "l1", "l2", "l3", "lK", "p13", "p24", "ple1", "pall", "dl1", "dp13"}
+\* "pK": a pattern that is a lone constant path, K4 (= 4)
+Items == {"l0", "l1", "l2", "l3", "lK", "p13", "p24", "ple1", "pall", "pK", "dl1", "dp13"}
 IsLit(it) == it \in {"l0", "l1", "l2", "l3", "lK", "dl1"}
 LitVal(it) == CASE it = "l0" -> 0 [] it = "l1" -> 1 [] it = "l2" -> 2 [] it = "l3" -> 3 [] it = "lK" -> 2 [] it = "dl1" -> 1
 Matches(it, prim, x) ==
   CASE IsLit(it)   -> x = LitVal(it)
     [] it \in {"p13", "dp13"} -> IF prim = "int" THEN x >= 1 /\ x <= 3 ELSE x \in {1, 3}
     [] it = "p24"  -> x \in {2, 4}
+    [] it = "pK"   -> x = 4
     [] it = "ple1" -> x <= 1
     [] it = "pall" -> TRUE
 Domain == (-1..6) \cup {99}
@@ -32,7 +34,7 @@ IntoExp(in, i) == IF IsLit(in.vs[i]) THEN LitVal(in.vs[i]) ELSE 70 + i
 RoundTrip(in, i) == FromExp(in, IntoExp(in, i))
 
 WellFormed(in) == /\ Len(in.vs) >= 1
-                  /\ (in.prim = "str" => \A i \in DOMAIN in.vs : in.vs[i] \notin {"ple1", "lK"})
+                  /\ (in.prim = "str" => \A i \in DOMAIN in.vs : in.vs[i] \notin {"ple1", "lK", "pK"})
 \* design-level theorem of the statement: with pairwise distinct literals and no pattern in front of a literal variant, the round trip is the identity
 DistinctLits(in) == \A i, j \in DOMAIN in.vs : i # j /\ IsLit(in.vs[i]) /\ IsLit(in.vs[j]) => LitVal(in.vs[i]) # LitVal(in.vs[j])
 RoundTripTheorem(in) == DistinctLits(in) =>
